@@ -954,6 +954,9 @@ func (e *Engine) VerifyFunction(fc *FuncContract) *FuncResult {
 	}
 	sort.Strings(res.Notes)
 	res.Assumed = append(res.Assumed, x.axiomNames...)
+	for _, k := range sortedKeys(x.assumedObjInv) {
+		res.Assumed = append(res.Assumed, "object invariant "+k+" assumed at calls from outside its package")
+	}
 	return res
 }
 
@@ -1059,7 +1062,7 @@ func (x *Exec) loopFrameGoals(st *State, keys map[string]bool) []string {
 	fs := x.frameSpecOf(st)
 	var goals []string
 	for _, key := range sortedKeys(keys) {
-		if key == "*" || strings.HasPrefix(key, "G|") || key == "L|" || fs.allKeys[key] {
+		if key == "*" || strings.HasPrefix(key, "*|") || strings.HasPrefix(key, "G|") || key == "L|" || fs.allKeys[key] {
 			continue
 		}
 		srt := x.arrSort[key]
@@ -1082,7 +1085,7 @@ func (x *Exec) frameObligations(st *State) {
 	var goals []string
 	var gkeys []string
 	for _, key := range sortedKeys(st.written) {
-		if key == "*" {
+		if key == "*" || strings.HasPrefix(key, "*|") {
 			x.emit(st, "frame:heap", "frame", "whole heap havocked by a callee without frame", "false")
 			continue
 		}
@@ -1436,4 +1439,31 @@ func (e *Engine) initOnlyErrGlobal(g *ssa.Global) bool {
 	}
 	ok = inits == 1 && others == 0
 	return ok
+}
+
+// exceptPkgs resolves the package aliases of an except(...) frame to module-relative dotted package names.
+func (e *Engine) exceptPkgs(pkgPath string, ce *ast.CallExpr) []string {
+	var out []string
+	for _, a := range ce.Args {
+		id, ok := a.(*ast.Ident)
+		if !ok {
+			return nil
+		}
+		full := ""
+		if m := e.cs.Imports[pkgPath]; m != nil {
+			full = m[id.Name]
+		}
+		if full == "" {
+			if tp := e.tpkgs[pkgPath]; tp != nil && tp.Name() == id.Name {
+				full = pkgPath
+			}
+		}
+		if full == "" {
+			return nil
+		}
+		full = strings.TrimPrefix(full, modulePath+"/")
+		out = append(out, strings.ReplaceAll(full, "/", "."))
+	}
+	sort.Strings(out)
+	return out
 }
